@@ -766,7 +766,8 @@ theorem normalize_plain (tab : Nat) (s : Str) (hp : s.all isPlainChar = true)
       subst this; decide
   rw [Normalize.normalize_eq, h1, h2, h3]
   rw [lines_all_ink] at hl
-  exact (wsLinesAux_ink s).1 false hl
+  -- the scan starts at a line start (`some 0`) since the repair a0e7e3c of F-C09-1
+  simpa using (wsLinesAux_ink s).2 0 hl
 
 /-! ### from the domain of `t` to the facts about `escAll esc t` -/
 
